@@ -1,11 +1,21 @@
-import Vita.C12.GenLoads
+import Vita.C12.FlowTable
 import Vita.C12.Lemmas
+import Vita.C11.Toy
 /-!
   C12 — a failed load leaves the target untouched (property theorems).
 
-  (a) `table_commit_last` / `loads_fail_untouched`: every load function extracted from the
-      current sources obeys the commit-last discipline, hence (by `commit_last_sound`) a failing
-      execution of any of them, in the generous abstract semantics, leaves `*this` as it was.
+  (a) The data-flow of every load function and stream constructor, extracted from the current sources
+      (`GenF.table`, tools/translate_flow.py), satisfies
+        `flow_commit_last`   the loads the property names have an empty `dirty` set (no member of `*this`
+                             is written on a path that can still fail, nested calls included),
+        `flow_all_checked`   every extraction from the stream and every nested load is checked,
+        `flow_kinds_ok`      failure is reported the documented way (false / exception::data_format),
+      hence, by the theorems of Flow.lean, in the generous semantics of `Exec`:
+        `loads_fail_untouched`      a failing load leaves every member of `*this` as it was,
+        `failed_read_is_reported`   a call that returns success has seen no failed extraction,
+        `failure_is_documented`     loads only fail by `return false`, stream constructors only by
+                                    `throw exception::data_format`,
+        `weak_load_frame`           what the loads documented "could be changed" may change on failure.
   (b) `X_fail_untouched`: in the statement-by-statement model of each load (`loadInto`), a call
       that reports failure returns the target it was given; `X_ok_iff`: it reports success exactly
       when the C11 parser of the same format succeeds (so the verdicts compared by the
@@ -14,31 +24,144 @@ import Vita.C12.Lemmas
 namespace Vita.C12
 open Vita.C11
 
-/-! ### (a) the extracted table -/
+/-! ### (a) the extracted data-flow table -/
 
-/-- every extracted load function passes the syntactic commit-last test -/
-theorem table_commit_last : ∀ s ∈ Gen.table, cl s = true := by decide
+open Flow in
+/-- every load the property names writes no member of `*this` on a path that can still fail -/
+theorem flow_commit_last :
+    ∀ i, okF i = true → (dirty okF (GenF.table.getD i .skip)).isEmpty = true := by
+  apply forall_of_range (n := GenF.table.length)
+  · decide
+  · intro i hi
+    have hk : GenF.kinds[i]? = none := List.getElem?_eq_none (by
+      have : GenF.kinds.length = GenF.table.length := by decide
+      omega)
+    simp [okF, List.getD_eq_getElem?_getD, hk]
 
-/-- the table has one entry per name and covers every function the property lists
-    (`requiredLoads`, Lemmas.lean) -/
-theorem table_covers : Gen.names.length = Gen.table.length ∧ ∀ n ∈ requiredLoads, n ∈ Gen.names := by
+open Flow in
+/-- every extraction from the stream and every nested load is checked, in every entry -/
+theorem flow_all_checked : ∀ s ∈ GenF.table, allChecked allowF s = true := by decide
+
+open Flow in
+/-- every entry reports failure only in the ways the table allows (exceptions of callees included) -/
+theorem flow_kinds_ok : ∀ i, kindsOK allowF (allowF i) (GenF.table.getD i .skip) = true := by
+  apply forall_of_range' (n := GenF.table.length)
+  · decide
+  · intro i hi
+    have hk : GenF.table[i]? = none := List.getElem?_eq_none hi
+    simp [List.getD_eq_getElem?_getD, hk, kindsOK]
+
+/-- the table has one entry per name / kind / allowed set, and every function of the property's list
+    (`requiredLoads`, Lemmas.lean) is present with kind `load` -/
+theorem flow_covers :
+    GenF.names.length = GenF.table.length ∧ GenF.kinds.length = GenF.table.length ∧
+    GenF.allowTab.length = GenF.table.length ∧
+    ∀ n ∈ requiredLoads, okF (GenF.names.idxOf n) = true ∧ GenF.names.idxOf n < GenF.names.length := by
   decide
 
-/-- **C12 (a).**  Whatever the target type `σ`, whatever the writes do and whichever failure
-    points fire: if entry `i` of the extracted table ends in failure, the target is unchanged. -/
-theorem loads_fail_untouched {σ : Type} (i : Nat) (t t' : σ)
-    (h : Exec Gen.table (Gen.table.getD i .skip) t .failed t') : t' = t :=
-  commit_last_sound Gen.table table_commit_last i t t' h
+open Flow in
+/-- **C12 (a).**  Whatever the values are, whatever the writes store, wherever a read fails: if one of the
+    loads the property names ends in failure, every data member of `*this` is what it was before the call —
+    through the nested calls (individual::load → load_impl on `*this`, team → members, population → layers
+    → individuals, summary → individual / fitness, on locals). -/
+theorem loads_fail_untouched {V : Type} (i : Nat) (hi : okF i = true) (st st' : St V) (k : FK)
+    (h : Exec GenF.table (GenF.table.getD i .skip) st (.failed k) st') : ∀ m, st'.mem m = st.mem m :=
+  fail_untouched okF flow_commit_last i hi st st' k h
 
-/-- the test is not vacuous: moving a write in front of a failure point is rejected
-    (`age_ = t_age` before `load_impl`, the C12 mutant of DESIGN Appendix B) … -/
-example : cl (.seq (.branch .fail .skip) (.seq .write (.seq (.sub 1) .write))) = false := by decide
-/-- … and so is a commit inside the parsing loop (`genome_ = genome` inside the loop). -/
-example : cl (.loop (.seq (.branch .fail .skip) .write)) = false := by decide
-/-- a failing execution exists (the theorem is about something) -/
-example : Exec (σ := Nat) Gen.table (Gen.table.getD 0 .skip) 7 .failed 7 := by
-  show Exec Gen.table (.seq (.branch .fail .skip) .write) 7 .failed 7
-  exact .seqFail _ _ _ _ (.brL _ _ _ _ _ (.failYes _))
+open Flow in
+/-- a call of any entry that returns normally has seen no failed extraction and no failed nested load:
+    every failed read is reported (loads: `false`; constructors: an exception) -/
+theorem failed_read_is_reported {V : Type} (i : Nat) (st st' : St V)
+    (h : Exec GenF.table (GenF.table.getD i .skip) st .cont st')
+    (hb : st.bad = false) (hm : st.missed = false) : st'.bad = false ∧ st'.missed = false :=
+  exec_clean allowF flow_kinds_ok flow_all_checked h
+    (getD_ok (P := fun s => allChecked allowF s = true) rfl flow_all_checked i) hb hm rfl
+
+open Flow in
+/-- failure is reported the documented way -/
+theorem failure_is_documented {V : Type} (i : Nat) (st st' : St V) (k : FK)
+    (h : Exec GenF.table (GenF.table.getD i .skip) st (.failed k) st') : k ∈ allowF i :=
+  exec_kinds allowF flow_kinds_ok h (allowF i) k (flow_kinds_ok i) rfl
+
+open Flow in
+/-- the loads only fail by `return false`; the stream constructors (and `build<U>`) only by
+    `throw exception::data_format`; `serialize::lambda::load` by `nullptr` or that exception -/
+theorem documented_kinds :
+    ∀ i, i < GenF.table.length →
+      allowF i = (match GenF.kinds.getD i .weak with
+        | .load | .weak => [.retFalse]
+        | .ctor | .builder => [.throwFmt]
+        | .factory => [.retNull, .throwFmt]) := by
+  decide
+
+open Flow in
+/-- what a failing execution of ANY entry (the loads documented "could be changed" included) leaves
+    untouched: every member that is not in its `dirty` set -/
+theorem weak_load_frame {V : Type} (i : Nat) (st st' : St V) (k : FK)
+    (h : Exec GenF.table (GenF.table.getD i .skip) st (.failed k) st')
+    (m : Nat) (hm : (dirty okF (GenF.table.getD i .skip)).has m = false) : st'.mem m = st.mem m :=
+  fail_frame okF flow_commit_last i st st' k h m hm
+
+/-- `cache::load` is NOT commit-last: a failing call may have overwritten slots of `table_` (and nothing
+    else: `seal_` is assigned after the last failure point); `evaluator_proxy::load` may have changed
+    `eva_` (through the evaluator's own load) and `cache_` -/
+theorem weak_loads_dirty :
+    dirtyNames (GenF.names.idxOf "vita::cache::load") = (false, ["vita::cache::table_"]) ∧
+    dirtyNames (GenF.names.idxOf "vita::evaluator_proxy<vita::i_mep, vita::test_evaluator<vita::i_mep>>::load")
+      = (false, ["vita::evaluator_proxy<vita::i_mep, vita::test_evaluator<vita::i_mep>>::eva_",
+                 "vita::evaluator_proxy<vita::i_mep, vita::test_evaluator<vita::i_mep>>::cache_"]) := by
+  decide
+
+open Flow in
+/-- the test is not vacuous: reading straight into a member is rejected (`in >> best_.index`, seeded
+    change C12-m1) … -/
+example : (dirty okF (.seq (.read [.tmp 0] (some .retFalse))
+    (.seq (.branch (.read [.mem 2, .mem 2] (some .retFalse)) .skip) (.asg (.mem 3))))).isEmpty = false := by decide
+open Flow in
+/-- … so are a check after the commit (`*this = p; return is_valid();`, C12-m2), a member moved out
+    before the first read (`tmp.az = std::move(az)`, C12-m3), `age_ = t_age` before `load_impl` and a
+    commit inside the parsing loop -/
+example : (dirty okF (.seq (.asg .self) (.branch (.fail .retFalse) .skip))).isEmpty = false := by decide
+open Flow in
+example : (dirty okF (.seq (.asg (.mem 7)) (.read [.tmp 1] (some .retFalse)))).isEmpty = false := by decide
+open Flow in
+example : (dirty okF (.seq (.asg (.mem 4)) (.sub 1 .self (some .retFalse)))).isEmpty = false := by decide
+open Flow in
+example : (dirty okF (.loop (.seq (.read [.tmp 0] (some .retFalse)) (.asg (.mem 0))))).isEmpty = false := by decide
+open Flow in
+/-- a nested load on a member is only harmless when the callee is itself commit-last -/
+example : (dirty (fun _ => false) (.sub 0 (.mem 5) (some .retFalse))).isEmpty = false := by decide
+open Flow in
+/-- an unchecked extraction and an ignored nested load are rejected -/
+example : allChecked allowF (.seq (.read [.tmp 0] none) (.asg .self)) = false := by decide
+open Flow in
+example : allChecked allowF (.sub 6 (.tmp 0) none) = false := by decide
+open Flow in
+/-- failing executions exist (the theorems are about something): `hash_t::load` on a stream that ends -/
+example : Exec (V := Nat) GenF.table (GenF.table.getD 0 .skip) ⟨fun _ => 7, fun _ => 0, false, false⟩
+    (.failed .retFalse) ⟨fun _ => 7, fun _ => 0, true, false⟩ := by
+  show Exec GenF.table (.seq (.read [.tmp 1, .tmp 1] (some .retFalse)) (.asg .self)) _ _ _
+  exact .seqFail _ _ _ _ _ (.readBadChk _ _ _ _ ⟨fun _ _ => rfl, fun _ _ _ => rfl⟩ rfl rfl)
+open Flow in
+/-- … successful ones too (hypothesis of `failed_read_is_reported`): both words read, `*this = tmp` -/
+example : Exec (V := Nat) GenF.table (GenF.table.getD 0 .skip) ⟨fun _ => 7, fun _ => 0, false, false⟩
+    .cont ⟨fun _ => 9, fun _ => 0, false, false⟩ := by
+  show Exec GenF.table (.seq (.read [.tmp 1, .tmp 1] (some .retFalse)) (.asg .self)) _ _ _
+  exact .seqCont _ _ _ ⟨fun _ => 7, fun _ => 0, false, false⟩ _ _
+    (.readOk _ _ _ _ rfl ⟨fun _ _ => rfl, fun _ _ _ => rfl⟩ rfl rfl)
+    (.asg _ _ _ ⟨fun m h => by simp [locsW, locW, W.has, W.union] at h, fun h => by simp at h⟩ rfl rfl)
+open Flow in
+/-- … and every entry that starts with a failure point has failing executions, from every state: all the
+    loads that read anything, `cache::load` (hypothesis of `weak_load_frame`), the constructors that read -/
+example {V : Type} (st : St V) :
+    ∀ n ∈ ["vita::hash_t::load", "vita::i_mep::load_impl", "vita::individual<vita::i_mep>::load",
+           "vita::team<vita::i_mep>::load", "vita::population<vita::i_mep>::load",
+           "vita::summary<vita::i_mep>::load", "vita::cache::load"],
+      ∃ st', Exec GenF.table (GenF.table.getD (GenF.names.idxOf n) .skip) st (.failed .retFalse) st' := by
+  intro n hn
+  apply exec_firstFail
+  revert n
+  decide
 
 /-! ### (b) the per-type models -/
 
@@ -211,6 +334,64 @@ theorem summary_fail_untouched (io : FloatIO F) (tab : SymTab) (t : Summary F) (
   parseThenCommit_fail _ _ t s h
 theorem summary_ok_iff (io : FloatIO F) (tab : SymTab) (t : Summary F) (s : Str) :
     (Summary.loadInto io tab t s).ok = (Summary.load io tab s).isSome := parseThenCommit_ok_iff _ _ t s
+
+/-! `cache::load` (outside the property: documented "could be changed") -/
+
+/-- what a failed `cache::load` leaves untouched: the seal, the number of bits, the size of the table -/
+theorem cache_fail_seal_untouched (io : FloatIO F) (c : Cache F) (s : Str)
+    (h : (Cache.loadIntoT io c s).ok = false) :
+    (Cache.loadIntoT io c s).target.sl = c.sl ∧ (Cache.loadIntoT io c s).target.bits = c.bits ∧
+    (Cache.loadIntoT io c s).target.table.length = c.table.length := by
+  unfold Cache.loadIntoT at h ⊢
+  cases h1 : readU U32 s with
+  | none => exact ⟨rfl, rfl, rfl⟩
+  | some p =>
+    obtain ⟨sl, s1⟩ := p
+    simp only [h1] at h ⊢
+    cases h2 : readU U64 s1 with
+    | none => exact ⟨rfl, rfl, rfl⟩
+    | some q =>
+      obtain ⟨n, s2⟩ := q
+      simp only [h2] at h ⊢
+      cases hk : (Cache.loadSlots io c.bits sl n c.table s2).ok with
+      | true => simp [hk] at h
+      | false => simp [loadSlots_length]
+
+/-- the statement-by-statement model succeeds exactly when the C11 model of `cache::load` does, with the
+    same cache -/
+theorem cache_ok_iff (io : FloatIO F) (c : Cache F) (s : Str) :
+    (Cache.loadIntoT io c s).ok = (Cache.loadInto io c s).isSome ∧
+    ∀ c' r, Cache.loadInto io c s = some (c', r) →
+      (Cache.loadIntoT io c s).target = c' ∧ (Cache.loadIntoT io c s).rest = r := by
+  unfold Cache.loadIntoT Cache.loadInto
+  simp only [P.bind_apply]
+  cases h1 : readU U32 s with
+  | none => simp
+  | some p =>
+    obtain ⟨sl, s1⟩ := p
+    simp only []
+    cases h2 : readU U64 s1 with
+    | none => simp
+    | some q =>
+      obtain ⟨n, s2⟩ := q
+      simp only []
+      have := loadSlots_spec io c.bits sl n c.table s2
+      cases h3 : readN (Slot.load io) n s2 with
+      | none =>
+        simp only [h3] at this
+        simp [this]
+      | some w =>
+        obtain ⟨slots, r⟩ := w
+        simp only [h3] at this
+        simp [this, P.pure_apply]
+
+/-- `cache::load` is NOT commit-last in the model either: a record that announces two slots and holds one
+    makes the load fail after the first slot has been stored -/
+example : (Cache.loadIntoT toyIO (Cache.fresh 1) "7\n2\n5 9\n1 \n".toList).ok = false ∧
+    (Cache.loadIntoT toyIO (Cache.fresh 1) "7\n2\n5 9\n1 \n".toList).target.table.map (·.sl) = [0, 7] ∧
+    (Cache.fresh (F := Bool) 1).table.map (·.sl) = [0, 0] ∧
+    (Cache.loadIntoT toyIO (Cache.fresh 1) "7\n2\n5 9\n1 \n".toList).target.sl = 1 := by
+  decide
 
 /-- non-vacuity of (b): a truncated stream makes the model fail, and the target survives -/
 example : (IGaT.loadInto ⟨3, [1, 2], ⟨5, 6⟩⟩ ['7', '\n', '2', '\n', '9', '\n']).ok = false := by decide
